@@ -462,10 +462,44 @@ def rule_iterpairs(ctx, rule='R13.i'):
                   '(generator abstractly executed for rank 1..4)', m.loc(), sample={'rank 3': tables.get(3)})
 
 
+def _identity_sem(ctx, cls):
+    """execute the real constructor for rank 1..4 (symbolic length) and read every pair function: 1 on the diagonal, 0 off
+    it.  Returns (list of problems) or raises Unsupported."""
+    bad = []
+    for rank in (1, 2, 3, 4):
+        ip = Interp(ctx.prog)
+        L = ip.declare('L', integer=True)
+        o = ip.construct(cls, [], {'length': Num(L), 'rank': const_num(rank)})
+        data = o.attrs.get('data')
+        if not isinstance(data, Arr):
+            raise Unsupported('IdentityMatrixArray.data is %r' % (data,))
+        for i in range(rank):
+            for j in range(rank):
+                t = ip.read_cell(data, i, j)
+                want = N.NF.const(1 if i == j else 0)
+                if P.is_pw(t) or not t.equals(want):
+                    bad.append('rank %d: pair function [%d,%d] is %s, expected %s' % (rank, i, j, P.show(t), N.show(want)))
+        sp = o.attrs.get('space')
+        if isinstance(sp, Const) and sp.v is not None and not (isinstance(sp.v, tuple) and sp.v[0] == 'Space'):
+            bad.append('space is %r' % (sp.v,))
+    return bad
+
+
 def rule_identity(ctx, rule='R13.I'):
-    """IdentityMatrixArray: ones on exactly the diagonal of a zero array"""
+    """IdentityMatrixArray: ones on exactly the diagonal of a zero array -- decided by executing the real constructor for
+    rank 1..4; the textual idiom recogniser below is only a fallback when that execution is not possible"""
     cls = ctx.prog.cls('pyPRISM.core.IdentityMatrixArray::IdentityMatrixArray')
     m = cls.find_method('__init__')
+    try:
+        bad = _identity_sem(ctx, cls)
+        if bad:
+            ctx.violation(rule, cls.qualname, 'identity', '; '.join(bad[:3]), m.loc())
+        else:
+            ctx.holds(rule, cls.qualname, 'the constructor executed for rank 1..4 leaves 1 on every diagonal and 0 on every '
+                      'off-diagonal pair function (any length)', m.loc())
+        return
+    except (Unsupported, Raised):
+        pass
     body = [s for s in m.node.body if not (isinstance(s, ast.Expr) and isinstance(s.value, ast.Constant))]
     src = [ast.unparse(s).replace(' ', '') for s in body]
     zeros = [s for s in src if s.startswith('self.data=np.zeros((length,rank,rank))')]
